@@ -7,7 +7,20 @@ real output must be one of the two admissible values.  "floor" mode (after fix 4
 step down iff 2**round > x) is deterministic everywhere and compared bit-for-bit.  Independently the real outputs are judged against the
 property clauses by exact predicates (po2-ness / exponent range / sign / admissible exponent
 evaluated in Lean, order comparisons on exact Fractions here).
+
+Strengthening round (seed C03-5 + cross-cutting blind spots): besides the base stream (fresh object,
+python numbers, one call on a rank-1 tensor) every run has the streams of `extra_cases`: every numeric
+constructor argument in every spelling the constructor accepts (python int/float, numpy scalars of
+every width, 0-d ndarray, tf constant / variable), flags as int / numpy bool, keyword / from_config /
+string routes, `use_stochastic_rounding` x learning phase x rounding mode, `negative_slope > 1`,
+`tf.keras.backend.set_epsilon` (both orders), inputs as numpy / tensor / variable of rank 0..5, calls
+through QActivation / shared layers / tf.function / a Keras model, and HISTORIES on one object (calls of
+other shapes in between, re-configuration through public attributes).  Every such case is judged by
+the same clause oracle against the configuration a FRESH object built from the python numbers of the
+same values would have (`Obj.fresh`), tied to the model of the object as the code keeps it (`Obj.view`)
+and compared bit-for-bit with a fresh twin.
 """
+import contextlib
 import math
 from fractions import Fraction
 
@@ -38,10 +51,14 @@ def around(x, offs):
 
 def cfg_name(c):
   mv = c["max_value"]
-  return "%s(bits=%d,max_value=%s,slope=%s,%s%s)" % (
+  base = "%s(bits=%d,max_value=%s,slope=%s,%s%s)" % (
       "quantized_relu_po2" if c["relu"] else "quantized_po2", c["bits"],
       "None" if mv is None else repr(mv), repr(c["slope"]), "floor" if c["floor"] else "rnd",
       ",quad" if c["quad"] else "")
+  if "stream" not in c:
+    return base
+  # an extra-stream case: the description of HOW the object was made and used is part of the name
+  return base + "{" + c["desc"] + "}"
 
 
 def all_configs(tier):
@@ -97,33 +114,388 @@ def pick_configs(tier, rng):
 
 
 def proto_cfg(c, eps32):
-  return {"relu": c["relu"], "bits": c["bits"],
-          "max_value": None if c["max_value"] is None else core.rj(c["max_value"]),
-          "neg_slope": core.rj(c["slope"]), "floor": c["floor"], "quad": c["quad"], "eps": core.rj(eps32)}
+  """protocol form of a case: the constructor call as written (values + spellings), the process
+  state, and the attribute re-configurations of its history (calls are not sent)"""
+  d = {"relu": c["relu"], "bits": c["bits"],
+       "max_value": None if c["max_value"] is None else core.rj(c["max_value"]),
+       "neg_slope": core.rj(c["slope"]), "floor": c["floor"], "quad": c["quad"],
+       "eps": core.rj(case_eps(c, eps32))}
+  if "stream" in c:
+    f = c.get("forms", {})
+    d.update({"bits_form": f.get("bits", "pyInt"), "mv_form": f.get("max_value", "pyFloat"),
+              "slope_form": f.get("slope", "pyFloat"), "stoch": bool(c.get("stoch", False)),
+              "training": bool(c.get("env", {}).get("training", False)),
+              "hist": [proto_step(h) for h in c.get("hist", []) if "set" in h]})
+  return d
+
+
+def proto_step(h):
+  k = h["set"]
+  if k == "max_value":
+    return {"set": k, "v": None if h["v"] is None else core.rj(h["v"])}
+  if k == "neg_slope":
+    return {"set": k, "v": core.rj(h["v"])}
+  if k in ("floor", "stoch"):
+    return {"set": k, "b": bool(h["b"])}
+  return {"set": "bits", "n": int(h["n"])}
+
+
+def case_eps(c, eps32):
+  e = c.get("env", {}).get("eps")
+  return eps32 if e is None else np.float32(e)
+
+
+INT_FORMS = ("pyInt", "npInt32", "npInt64", "ndarrayInt")
+NPINT_FORMS = ("npInt32", "npInt64", "ndarrayInt")
+
+
+def spell(v, form, alt=False):
+  """the python object a numeric argument of value `v` is passed as"""
+  import tensorflow as tf
+  if v is None:
+    return None
+  if form in INT_FORMS:
+    assert float(v).is_integer(), (v, form)
+  return {"pyInt": lambda: int(v), "pyFloat": lambda: float(v), "npFloat16": lambda: np.float16(v),
+          "npFloat32": lambda: np.float32(v), "npFloat64": lambda: np.float64(v),
+          "npInt32": lambda: np.int32(int(v)), "npInt64": lambda: np.int64(int(v)),
+          "ndarrayInt": lambda: np.array(int(v)),
+          "ndarrayFloat": lambda: np.array(v, dtype=np.float64 if alt else np.float32),
+          "tfConstant": lambda: tf.constant(float(v)), "tfVariable": lambda: tf.Variable(float(v))}[form]()
+
+
+def spell_flag(b, form):
+  return {"bool": lambda: bool(b), "int": lambda: int(b), "npBool": lambda: np.bool_(b)}[form]()
+
+
+def live_values(c):
+  """constructor values after the attribute re-configurations of the history"""
+  v = {k: c[k] for k in ("relu", "bits", "max_value", "slope", "floor", "quad")}
+  v["stoch"] = bool(c.get("stoch", False))
+  for h in c.get("hist", []):
+    if "set" not in h:
+      continue
+    if h["set"] == "max_value":
+      v["max_value"] = h["v"]
+    elif h["set"] == "neg_slope":
+      v["slope"] = h["v"]
+    elif h["set"] == "floor":
+      v["floor"] = h["b"]
+    elif h["set"] == "stoch":
+      v["stoch"] = h["b"]
+    elif h["set"] == "bits":
+      v["bits"] = h["n"]
+  return v
 
 
 def build(c):
-  from qkeras.quantizers import quantized_po2, quantized_relu_po2
+  """the REAL quantizer of a case: constructor route and spellings as the case says (python numbers,
+  positional, for the base stream)"""
+  from qkeras.quantizers import quantized_po2, quantized_relu_po2, get_quantizer
   mode = "floor" if c["floor"] else "rnd"
-  if c["relu"]:
-    return quantized_relu_po2(c["bits"], c["max_value"], c["slope"], False, c["quad"], mode)
-  return quantized_po2(c["bits"], c["max_value"], False, c["quad"], mode)
+  f = c.get("forms", {})
+  alt = bool(c.get("alt", False))
+  bits = spell(c["bits"], f.get("bits", "pyInt"))
+  mv = spell(c["max_value"], f.get("max_value", "pyFloat"), alt)
+  slope = spell(c["slope"], f.get("slope", "pyFloat"), alt)
+  stoch = spell_flag(c.get("stoch", False), f.get("flags", "bool"))
+  quad = spell_flag(c["quad"], f.get("flags", "bool"))
+  cls = quantized_relu_po2 if c["relu"] else quantized_po2
+  args = [bits, mv] + ([slope] if c["relu"] else []) + [stoch, quad, mode]
+  names = ["bits", "max_value"] + (["negative_slope"] if c["relu"] else []) + [
+      "use_stochastic_rounding", "quadratic_approximation", "log2_rounding"]
+  route = c.get("route", "positional")
+  if route == "positional":
+    return cls(*args)
+  if route == "keyword":
+    return cls(**dict(reversed(list(zip(names, args)))))
+  if route == "from_config":
+    return cls.from_config(cls(*args).get_config())
+  if route == "string":
+    return get_quantizer(str(cls(*args)))
+  raise ValueError(route)
 
+
+def twin(c):
+  """a FRESH object built positionally from python numbers of the case's CURRENT values"""
+  v = live_values(c)
+  return build({"relu": v["relu"], "bits": int(v["bits"]),
+                "max_value": None if v["max_value"] is None else float(v["max_value"]),
+                "slope": float(v["slope"]), "floor": v["floor"], "quad": v["quad"], "stoch": v["stoch"]})
+
+
+@contextlib.contextmanager
+def env_ctx(c):
+  """process-level state of a case (restored afterwards): keras epsilon, learning phase"""
+  import tensorflow as tf
+  K = tf.keras.backend
+  env = c.get("env", {})
+  old = K.epsilon()
+  try:
+    if env.get("eps") is not None:
+      K.set_epsilon(env["eps"])
+    if env.get("training"):
+      K.set_learning_phase(1)
+    yield
+  finally:
+    K.set_epsilon(old)
+    if env.get("training"):
+      K.set_learning_phase(0)
+
+
+def shaped(xs, rank, rows=2):
+  """`xs` (1-d float32) padded and reshaped to the given rank (dimensions of size 1 included)"""
+  n = len(xs)
+  if rank == 1:
+    return xs, n
+  m = n + (n % rows)
+  p = np.concatenate([xs, np.repeat(xs[:1], m - n)]).astype(np.float32)
+  shape = {2: (rows, m // rows), 3: (1, rows, m // rows), 4: (rows, 1, m // rows, 1),
+           5: (1, rows, 1, 1, m // rows)}[rank]
+  return p.reshape(shape), n
+
+
+def call_obj(q, xs, inp):
+  """evaluate quantizer object `q` on the 1-d float32 array `xs` the way `inp` says; 1-d result"""
+  import tensorflow as tf
+  kind, rank, via = inp.get("kind", "tensor"), inp.get("rank", 1), inp.get("via", "direct")
+  wrap = {"tensor": tf.constant, "numpy": lambda a: a, "variable": tf.Variable}[kind]
+  if rank == 0:
+    return np.array([np.asarray(q(wrap(np.float32(x)))).reshape(()) for x in xs], dtype=np.float32)
+  arr, n = shaped(xs, rank)
+  if via == "direct":
+    y = q(wrap(arr))
+  elif via == "qactivation":
+    from qkeras import QActivation
+    y = QActivation(q)(wrap(arr))
+  elif via == "shared_layers":
+    from qkeras import QActivation
+    l1, l2 = QActivation(q), QActivation(q)
+    l1(tf.constant(np.float32([[0.3, -1.7, 0.0]])))
+    y = l2(wrap(arr))
+  elif via == "tf_function":
+    y = tf.function(lambda t: q(t))(tf.constant(arr))
+  elif via == "model":
+    from qkeras import QActivation
+    m = tf.keras.Sequential([tf.keras.layers.Input(arr.shape[1:]), QActivation(q)])
+    y = m.predict(arr, verbose=0)
+  else:
+    raise ValueError(via)
+  y = np.asarray(y)
+  if y.shape != arr.shape:
+    SHAPE_MISMATCH.append((str(inp), arr.shape, y.shape))
+  return y.astype(np.float32).reshape(-1)[:n]
+
+
+SHAPE_MISMATCH = []   # (input description, input shape, output shape): the quantizer is an elementwise map
+
+
+def make_obj(c):
+  """build the case's object and replay its history (interleaved calls and re-configurations)"""
+  import tensorflow as tf
+  q = build(c)
+  for h in c.get("hist", []):
+    if "call" in h:
+      a = np.float32(h["call"])
+      q(tf.constant(a) if h.get("tensor", True) else a)
+    elif h["set"] == "max_value" and h.get("assign"):
+      q.max_value.assign(h["v"])       # max_value is a tf.Variable: re-configured in place
+    elif h["set"] == "max_value":
+      q.max_value = h["v"]
+    elif h["set"] == "neg_slope":
+      q.negative_slope = h["v"]
+    elif h["set"] == "floor":
+      q.log2_rounding = "floor" if h["b"] else "rnd"
+    elif h["set"] == "stoch":
+      q.use_stochastic_rounding = h["b"]
+    elif h["set"] == "bits":
+      q.bits = h["n"]
+  return q
+
+
+
+# ----------------------------------------------------------------------------- extra streams
+
+MV_FORMS = ("pyInt", "pyFloat", "npFloat16", "npFloat32", "npFloat64", "npInt32", "npInt64", "ndarrayFloat",
+            "tfConstant", "tfVariable")
+BITS_FORMS = ("pyFloat", "npFloat32", "npFloat64", "npInt32", "npInt64", "ndarrayInt")
+SLOPE_FORMS = ("pyInt", "npFloat16", "npFloat32", "npFloat64", "npInt64", "ndarrayFloat")
+FLAG_FORMS = ("int", "npBool")
+
+
+def _pick(rng, seq):
+  return seq[int(rng.integers(len(seq)))]
+
+
+def _desc(c):
+  parts = []
+  f = c.get("forms", {})
+  for k in ("bits", "max_value", "slope", "flags"):
+    if k in f:
+      parts.append("%s:%s" % (k, f[k]))
+  if c.get("route", "positional") != "positional":
+    parts.append("route=" + c["route"])
+  if c.get("stoch"):
+    parts.append("stochastic")
+  env = c.get("env", {})
+  if env.get("training"):
+    parts.append("training")
+  if env.get("eps") is not None:
+    parts.append("epsilon=%r,%s" % (env["eps"], env.get("order", "env_first")))
+  inp = c.get("inp", {})
+  if inp:
+    parts.append("input=%s/rank%d/%s" % (inp.get("kind", "tensor"), inp.get("rank", 1), inp.get("via", "direct")))
+  for h in c.get("hist", []):
+    if "call" in h:
+      parts.append("call%s" % (np.shape(h["call"]),))
+    else:
+      parts.append("%s:=%r" % (h["set"], h.get("v", h.get("b", h.get("n")))))
+  return c["stream"] + ";" + ";".join(parts)
+
+
+def extra_cases(tier, rng):
+  """the streams of the strengthening round; every case is a dict with the base keys (constructor
+  VALUES) plus stream / forms / route / stoch / env / inp / hist"""
+  out = []
+  mvs_le1 = [1.0, 0.5, 0.25, 0.125]
+  mvs_gt1 = [2.0, 4.0, 16.0, 64.0]
+
+  def base(relu=None, bits=None, mv="?", slope=None, floor=None, quad=False):
+    relu = bool(rng.integers(2)) if relu is None else relu
+    return {"relu": relu, "bits": int(rng.integers(2, 9)) if bits is None else bits,
+            "max_value": _pick(rng, [None] + mvs_le1 + mvs_gt1) if mv == "?" else mv,
+            "slope": (0.0 if not relu else _pick(rng, [0.0, 0.0, 1.0, 0.5, 0.25, 0.125])) if slope is None else slope,
+            "floor": bool(rng.integers(2)) if floor is None else floor, "quad": quad}
+
+  def add(stream, c, **kw):
+    c = dict(c, stream=stream, **kw)
+    c["desc"] = _desc(c)
+    out.append(c)
+
+  # -- A. spellings of max_value: every form x both classes with max_value <= 1 (the exponent sign bit
+  #       is dropped: seed C03-5), and a random one with max_value > 1 / == 1
+  for form in MV_FORMS:
+    for relu in (False, True):
+      ints = form in INT_FORMS
+      add("forms", base(relu=relu, bits=int(rng.integers(3, 7)), mv=1.0 if ints else _pick(rng, mvs_le1)),
+          forms={"max_value": form}, alt=bool(rng.integers(2)))
+    add("forms", base(mv=_pick(rng, mvs_gt1 + [1.0])), forms={"max_value": form}, alt=bool(rng.integers(2)))
+  # -- spellings of bits (numpy float32 bits overflow 2**max_exp in max(): kept below 2^128)
+  for form in BITS_FORMS:
+    for relu in (False, True):
+      hi = 8 if form != "npFloat32" else (7 if not relu else 6)
+      add("forms", base(relu=relu, bits=int(rng.integers(2, hi + 1))), forms={"bits": form})
+  for form in NPINT_FORMS:   # the recorded numpy-integer cases: min() raises, 2**max_exp wraps
+    add("forms", base(relu=True, bits=4, mv=None, slope=0.0), forms={"bits": form})
+    add("forms", base(relu=False, bits=8, mv=None), forms={"bits": form})
+  # -- spellings of negative_slope (slopes > 1 included)
+  for form in SLOPE_FORMS:
+    sl = _pick(rng, [0.0, 1.0, 2.0, 4.0]) if form in INT_FORMS else _pick(rng, [0.0, 0.5, 0.25, 2.0, 2.0 ** -6])
+    add("forms", base(relu=True, slope=sl), forms={"slope": form}, alt=bool(rng.integers(2)))
+  # -- everything spelled at once, flags as int / numpy bool
+  for _ in range(4):
+    c = base()
+    ints_ok = c["max_value"] is not None and float(c["max_value"]).is_integer()
+    f = {"bits": _pick(rng, BITS_FORMS[:1] + BITS_FORMS[2:]),
+         "max_value": _pick(rng, MV_FORMS if ints_ok else [m for m in MV_FORMS if m not in INT_FORMS]),
+         "flags": _pick(rng, FLAG_FORMS)}
+    if c["relu"]:
+      f["slope"] = _pick(rng, [m for m in SLOPE_FORMS if m not in INT_FORMS or float(c["slope"]).is_integer()])
+    add("forms", c, forms=f, stoch=bool(rng.integers(2)))
+  # -- B. constructor routes
+  for route in ("keyword", "from_config", "string"):
+    for relu in (False, True):
+      c = base(relu=relu)
+      f = {}
+      if route != "string" and c["max_value"] is not None:
+        f = {"max_value": _pick(rng, ["npFloat32", "npFloat16", "ndarrayFloat", "pyFloat"])}
+      add("routes", c, route=route, forms=f)
+  # -- C. use_stochastic_rounding x phase x mode ("floor" wins in both phases; inference = "rnd")
+  for relu in (False, True):
+    for floor in (False, True):
+      add("stochastic", base(relu=relu, floor=floor), stoch=True)
+      add("stochastic", base(relu=relu, floor=floor), stoch=True, env={"training": True})
+  add("stochastic", base(relu=False, bits=8, mv=None, floor=True), stoch=True)
+  add("stochastic", base(relu=True, bits=5, mv=None, slope=0.5, floor=True), stoch=True, env={"training": True})
+  add("stochastic", base(floor=False), stoch=False, env={"training": True})
+  add("stochastic", base(relu=False, bits=6, mv=None, floor=False), stoch=True, env={"training": True})
+  add("stochastic", base(relu=True, mv=_pick(rng, [1.0, 4.0]), slope=0.25, floor=False), stoch=True,
+      env={"training": True})
+  # -- D. negative_slope > 1
+  for sl in (2.0, 4.0, 8.0, 2.0):
+    add("slope_gt1", base(relu=True, slope=sl, mv=_pick(rng, [None, None, 4.0, 0.5, 1.0, 64.0])))
+  # -- E. process state: keras epsilon, set before / after the object is built
+  for eps, order in ((2.0 ** -10, "env_first"), (2.0 ** -10, "ctor_first"), (2.0 ** -20, "ctor_first"),
+                     (1e-4, "env_first"), (2.0 ** -30, "ctor_first"), (2.0 ** -20, "env_first")):
+    # wide exponent ranges, so that the interval reaches well below the epsilon under test
+    relu = bool(rng.integers(2))
+    add("epsilon", base(relu=relu, bits=int(rng.integers(6, 8)) if relu else int(rng.integers(7, 9))),
+        env={"eps": eps, "order": order})
+  # -- F. inputs: numpy / tensor / variable x rank 0..5
+  combos = [(k, r) for k in ("numpy", "tensor", "variable") for r in (0, 1, 2, 3, 4, 5)]
+  for i in rng.permutation(len(combos))[:10 if tier == "quick" else 18]:
+    k, r = combos[int(i)]
+    add("inputs", base(), inp={"kind": k, "rank": r})
+  # -- G. API routes of the call
+  for via in ("qactivation", "shared_layers", "tf_function", "model"):
+    for relu in (False, True):
+      add("inputs", base(relu=relu), inp={"kind": "tensor" if via != "qactivation" else _pick(rng, ["tensor", "numpy"]),
+                                          "rank": 2 if via == "model" else int(rng.integers(1, 5)), "via": via})
+  # -- H. histories on one object
+  calls = [{"call": [0.3, -5.0, 0.0]}, {"call": [[1e-9, 2.0], [-0.7, 100.0]]}, {"call": 0.75},
+           {"call": [[[3.0]]], "tensor": False}]
+  for _ in range(4):      # calls of other shapes / ranks only
+    add("history", base(), hist=[_pick(rng, calls), _pick(rng, calls)],
+        inp={"kind": _pick(rng, ["tensor", "numpy"]), "rank": int(rng.integers(1, 4))})
+  for _ in range(8):      # re-configurations that keep the cached exponent range valid
+    c = base()
+    steps = [_pick(rng, calls)]
+    if c["max_value"] is not None and c["max_value"] != 1.0:
+      pool = [m for m in (mvs_le1[1:] if c["max_value"] < 1 else mvs_gt1) if m != c["max_value"]]
+      steps.append({"set": "max_value", "v": _pick(rng, pool)})
+    steps.append({"set": "floor", "b": not c["floor"]})
+    if c["relu"]:
+      steps.append({"set": "neg_slope", "v": _pick(rng, [0.0, 0.5, 0.125, 2.0])})
+    steps.insert(int(rng.integers(1, len(steps) + 1)), _pick(rng, calls))
+    if rng.integers(2):
+      steps.append({"set": "stoch", "b": True})
+    add("history", c, hist=steps)
+  # max_value held in a tf.Variable and assigned in place (same side of 1 / across 1)
+  add("history", base(mv=0.5), forms={"max_value": "tfVariable"},
+      hist=[calls[0], {"set": "max_value", "v": 0.125, "assign": True}, calls[1]])
+  add("history", base(relu=False, bits=4, mv=4.0, floor=False), forms={"max_value": "tfVariable"},
+      hist=[{"set": "max_value", "v": 0.5, "assign": True}])
+  # re-configurations that invalidate the cache (recorded finding C03-stale-exponent-range)
+  add("history", base(relu=False, bits=4, mv=None, floor=False), hist=[calls[0], {"set": "max_value", "v": 0.5}])
+  add("history", base(relu=True, bits=3, mv=0.5, slope=0.0), hist=[{"set": "max_value", "v": None}, calls[1]])
+  add("history", base(relu=False, bits=5, mv=1.0), hist=[calls[2], {"set": "max_value", "v": 4.0}])
+  add("history", base(relu=True, bits=3, mv=2.0), hist=[{"set": "max_value", "v": 0.25}])
+  add("history", base(relu=False, bits=3), hist=[calls[0], {"set": "bits", "n": 5}])
+  add("history", base(relu=True, bits=5), hist=[{"set": "bits", "n": 3}, calls[3]])
+  return out
 
 # ----------------------------------------------------------------------------- inputs
 
-def gen_inputs(c, min_exp, max_exp, eps32, rng, tier):
-  """positive magnitudes with a tag each; signs are added afterwards"""
+def gen_inputs(c, min_exp, max_exp, eps32, rng, tier, lite=False):
+  """positive magnitudes with a tag each; signs are added afterwards.  `lite` (extra streams): the
+  same families with fewer offsets / exponents / randoms"""
   pts = []  # (tag, float32)
   offs = (-700, -8, -2, -1, 0, 1, 2, 8, 700)  # +-700 ulp: just outside the 2^-15 band
+  if lite:
+    offs = (-700, -1, 0, 1, 700)
   qf = 2 if c["quad"] else 1
   lo = max(qf * min_exp - 2, -27)
   hi = min(qf * max_exp + 2, 127)
   ks = list(range(lo, hi + 1))
   limit = 22 if tier == "quick" else 60
+  if lite:
+    limit = 12 if tier == "quick" else 24
   if len(ks) > limit:
     keep = set(ks[:4] + ks[-4:])
-    keep |= {k for k in (-25, -24, -23, -22, -14, -13, -1, 0, 1, 14, 15, 16) if lo <= k <= hi}
+    if lite:
+      keep |= {k for k in (-24, -23, -1, 0) if lo <= k <= hi}
+    else:
+      keep |= {k for k in (-25, -24, -23, -22, -14, -13, -1, 0, 1, 14, 15, 16) if lo <= k <= hi}
     rest = [k for k in ks if k not in keep]
     extra = rng.permutation(len(rest))[:max(0, limit - len(keep))]
     keep |= {rest[int(i)] for i in extra}
@@ -162,6 +534,8 @@ def gen_inputs(c, min_exp, max_exp, eps32, rng, tier):
         pts.append(("cancel_lo", x))
   # random: log-uniform over the whole float32 range, and over the representable window
   n = 48 if tier == "quick" else 160
+  if lite:
+    n = 10 if tier == "quick" else 40
   e1 = rng.uniform(-126, 127.9, size=n)
   for e in e1:
     pts.append(("rand_wide", np.float32(2.0 ** e)))
@@ -178,6 +552,18 @@ def run(run: core.Run, tier: str):
   import tensorflow as tf
   rng = np.random.default_rng(run.seed)
   eps32 = np.float32(tf.keras.backend.epsilon())
+  run.extra["rule_extra_streams"] = (
+      "strengthening round: ~125 extra cases per run (own RNG stream), ~400 inputs each (lowest / highest four "
+      "exponents of the interval, eps, clamp, slope pre-images, 0, subnormals, FLT_MAX, cancellation edges, +-{0,1,700} "
+      "ulp): forms = every spelling (python int/float, numpy float16/32/64, int32/64, 0-d ndarray, tf constant / "
+      "variable) of max_value (<= 1 and > 1), bits, negative_slope, flags as int / numpy bool, constructor "
+      "rejections per spelling; routes = keyword / from_config / string; stochastic = use_stochastic_rounding x "
+      "{inference, training} x {rnd, floor}; slope_gt1 = negative_slope 2, 4, 8; epsilon = K.set_epsilon before / "
+      "after construction; inputs = numpy / tensor / variable x rank 0..5, QActivation, shared layers, tf.function, "
+      "model.predict; history = one object: calls of other shapes in between, re-assignment of max_value / "
+      "log2_rounding / negative_slope / use_stochastic_rounding / bits, tf.Variable max_value assigned in place.  "
+      "Judged against the configuration of a FRESH object with the current values (Obj.fresh), tied to Obj.view, "
+      "compared bit-for-bit with a fresh python-number twin where one exponent is admissible.")
   run.extra["rule"] = (
       "configs: 15 fixed + seeded sample of {po2, relu_po2} x bits 2..8 x max_value {None, 2^-3..2^6} x "
       "negative_slope {0, 1, 1/2, 1/4, 1/8, 1/64} x {rnd, floor} x quadratic {F, T}; inputs per config: every "
@@ -192,6 +578,11 @@ def run(run: core.Run, tier: str):
       "float32 round(log(x)/log(2)) is an exponent the 2^-15 band (relative, in x, around sqrt(2)*2^k) admits; "
       "floor mode's pow(2, round) > x comparison is exact; "
       "TF round/floor/pow(2, integer) are exact in the normal range (checked: pow on -126..127 each run)",
+      "numpy inputs: numpy's comparisons do not flush subnormals (TF's do), so subnormal points are not "
+      "generated for numpy inputs; graph-mode routes (tf.function, model.predict) may round the logarithm "
+      "differently from eager mode inside the 2^-15 band only",
+      "training-phase stochastic rounding is judged relationally (one of the two powers of two bracketing the "
+      "input); its distribution is C08's subject",
   ]
 
   # pow(2, e) exactness: an assumption of the float layer, checked on the real op
@@ -206,18 +597,27 @@ def run(run: core.Run, tier: str):
 
   # malformed configurations: constructor errors
   from qkeras.quantizers import quantized_po2, quantized_relu_po2
-  bad = [(False, -1.0, 0.0), (True, -0.5, 0.0), (True, None, -0.5), (True, None, 0.3), (True, None, 3.0),
-         (True, 2.0, 0.25), (False, 0.25, 0.0)]
+  bad = [(False, -1.0, 0.0, {}), (True, -0.5, 0.0, {}), (True, None, -0.5, {}), (True, None, 0.3, {}),
+         (True, None, 3.0, {}), (True, 2.0, 0.25, {}), (False, 0.25, 0.0, {}),
+         # the same rejections / acceptances for every spelling of the offending argument
+         (False, -1.0, 0.0, {"max_value": "npFloat32"}), (True, -1.0, 0.0, {"max_value": "npInt64"}),
+         (False, -0.5, 0.0, {"max_value": "npFloat16"}), (True, -2.0, 0.0, {"max_value": "npInt32"}),
+         (False, -0.5, 0.0, {"max_value": "ndarrayFloat"}), (False, -1.0, 0.0, {"max_value": "pyInt"}),
+         (True, -0.5, 0.0, {"max_value": "npFloat64"}), (False, -0.25, 0.0, {"max_value": "tfConstant"}),
+         (True, None, -0.5, {"slope": "npFloat32"}), (True, None, 3.0, {"slope": "npInt64"}),
+         (True, None, 0.3, {"slope": "npFloat64"}), (True, None, -1.0, {"slope": "pyInt"}),
+         (True, 0.5, 2.0, {"slope": "npFloat16", "max_value": "npFloat32"})]
   bad_lines, bad_impl = [], []
-  for relu, mv, slope in bad:
+  for relu, mv, slope, forms in bad:
+    c = {"relu": relu, "bits": 4, "max_value": mv, "slope": slope, "floor": False, "quad": False,
+         "stream": "ctor", "forms": forms, "desc": "ctor;" + str(sorted(forms.items()))}
     try:
-      (quantized_relu_po2(4, mv, slope) if relu else quantized_po2(4, mv))
+      build(c)
       err = None
     except ValueError:
       err = "value-error"
     except AssertionError:
       err = "assert"
-    c = {"relu": relu, "bits": 4, "max_value": mv, "slope": slope, "floor": False, "quad": False}
     bad_lines.append({"op": "cfg", "cfg": proto_cfg(c, eps32)})
     bad_impl.append(err)
   for line, err, o in zip(bad_lines, bad_impl, core.run_driver("C03", bad_lines)):
@@ -226,57 +626,122 @@ def run(run: core.Run, tier: str):
     run.count("ctor_" + str(err))
     if o.get("err") != err:
       run.disagree("ctor", line, err, o)
+      if o.get("err") == "value-error" and err is None:
+        # property text: max_value is a power of two or None; a negative one must be rejected
+        run.violate("ctor_rejects_negative_max_value",
+                    {"variant": "relu_po2" if line["cfg"]["relu"] else "po2", "cause": "ctor", "stream": "ctor"},
+                    {"cfg": line["cfg"], "impl": "accepted", "model": o}, False)
 
   configs = pick_configs(tier, rng)
-  # ---- pass 0: exponent ranges and min()/max() from the model (tied to the real min()/max())
+  n_base = len(configs)
+  rng_x = np.random.default_rng([run.seed, 0xC03])   # the extra streams have their own generator
+  configs = configs + extra_cases(tier, rng_x)
+  tf.random.set_seed(run.seed)
+  for c in configs:
+    run.count("stream_" + c.get("stream", "base"))
+  # ---- pass 0: exponent ranges and min()/max() from the model (tied to the real min()/max() below)
   cfg_lines = [{"op": "cfg", "cfg": proto_cfg(c, eps32)} for c in configs]
   cfg_out = core.run_driver("C03", cfg_lines)
-  quants = []
-  for c, o in zip(configs, cfg_out):
-    q = build(c)
-    qmin, qmax = core.frac(q.min()), core.frac(q.max())
-    run.case(("minmax", cfg_name(c)))
-    run.compared += 1
-    if core.unrj(o["qmin"]) != qmin or core.unrj(o["qmax"]) != qmax:
-      run.disagree("minmax", cfg_name(c), [str(qmin), str(qmax)], o)
-    quants.append((q, qmin, qmax, int(o["min_exp"]), int(o["max_exp"])))
 
-  # ---- pass 1: q(x);  pass 2: q(q(x)) on the distinct outputs
-  lines1, meta1 = [], []
-  for c, (q, qmin, qmax, mn, mx) in zip(configs, quants):
-    pts = gen_inputs(c, mn, mx, eps32, rng, tier)
+  # ---- pass 1: q(x);  pass 2: q(q(x)) on the distinct outputs;  both inside the case's process state
+  lines1, meta1, lines2, meta2, quants = [], [], [], [], []
+  for i, (c, o) in enumerate(zip(configs, cfg_out)):
+    if "err" in o:
+      raise core.InfraError("generated configuration rejected by the model: %s %s" % (cfg_name(c), o))
+    mn, mx = int(o["min_exp"]), int(o["max_exp"])
+    e32 = case_eps(c, eps32)
+    pts = gen_inputs(live_values(c), mn, mx, e32, rng if i < n_base else rng_x, tier, lite=i >= n_base)
+    inp = c.get("inp", {})
+    if inp.get("rank", 1) == 0:
+      pts = pts[::max(1, len(pts) // 12)]   # rank 0: one call per element
+    if inp.get("kind") == "numpy":
+      # numpy comparisons do not flush subnormals while TF's kernels do (the model's DAZ assumption
+      # is about tensors): a subnormal numpy input is outside the modelled behaviour
+      pts = [(t, x) for t, x in pts if x == 0 or abs(float(x)) >= 2.0 ** -126]
     tags = [t for t, _ in pts] * 2
     xs = np.array([x for _, x in pts] + [-x for _, x in pts], dtype=np.float32)
-    ys = q(tf.constant(xs)).numpy().astype(np.float32)
-    lines1.append({"op": "quant", "cfg": proto_cfg(c, eps32), "x": core.enc_list(xs),
+    order = c.get("env", {}).get("order", "env_first")
+    q = make_obj(c) if order == "ctor_first" else None
+    with env_ctx(c):
+      if q is None:
+        q = make_obj(c)
+      try:
+        qmin = core.frac(q.min())
+      except ValueError as e:
+        qmin = None
+      qmax = core.frac(q.max())
+      ys = call_obj(q, xs, inp)
+      u = np.unique(ys[np.isfinite(ys)])
+      y2 = call_obj(q, u, {})
+      yt = None
+      free = bool(live_values(c)["stoch"] and c.get("env", {}).get("training") and not live_values(c)["floor"])
+      if "stream" in c and not free:
+        yt = twin(c)(tf.constant(xs)).numpy().astype(np.float32)
+    # min()/max() tie
+    run.case(("minmax", cfg_name(c)))
+    run.compared += 1
+    m_qmin = None if o["qmin"] is None else core.unrj(o["qmin"])
+    mm_ok = (m_qmin == qmin) and core.unrj(o["qmax"]) == qmax
+    if not mm_ok:
+      run.disagree("minmax", cfg_name(c), [str(qmin), str(qmax)], o)
+    pc = proto_cfg(c, eps32)
+    lines1.append({"op": "quant", "cfg": pc, "x": core.enc_list(xs),
                    "y": [core.rj(y) if np.isfinite(y) else [0, 1] for y in ys]})
-    meta1.append((tags, xs, ys))
-  # (non-finite outputs are sent as 0 and judged in judge_config)
-  out1 = core.run_driver("C03", lines1)
-
-  lines2, meta2 = [], []
-  for c, (q, qmin, qmax, mn, mx), (tags, xs, ys) in zip(configs, quants, meta1):
-    u = np.unique(ys[np.isfinite(ys)])
-    y2 = q(tf.constant(u)).numpy().astype(np.float32)
-    lines2.append({"op": "quant", "cfg": proto_cfg(c, eps32), "x": core.enc_list(u),
+    meta1.append((tags, xs, ys, yt))
+    lines2.append({"op": "quant", "cfg": pc, "x": core.enc_list(u),
                    "y": [core.rj(y) if np.isfinite(y) else [0, 1] for y in y2]})
     meta2.append((u, y2))
+    quants.append((qmin, qmax, mm_ok, mn, mx, e32, free))
+  for m in SHAPE_MISMATCH[:5]:
+    run.disagree("shape", {"input": m[0]}, str(m[2]), str(m[1]))
+  del SHAPE_MISMATCH[:]
+  # (non-finite outputs are sent as 0 and judged in judge_config)
+  out1 = core.run_driver("C03", lines1)
   out2 = core.run_driver("C03", lines2)
 
-  for c, (q, qmin, qmax, mn, mx), (tags, xs, ys), o1, (u, y2), o2 in zip(
-      configs, quants, meta1, out1, meta2, out2):
-    judge_config(run, c, qmin, qmax, mn, mx, eps32, tags, xs, ys, o1["r"], u, y2, o2["r"])
+  for c, o0, (qmin, qmax, mm_ok, mn, mx, e32, free), (tags, xs, ys, yt), o1, (u, y2), o2 in zip(
+      configs, cfg_out, quants, meta1, out1, meta2, out2):
+    judge_config(run, c, o0, qmin, qmax, mm_ok, mn, mx, e32, free, tags, xs, ys, o1["r"], u, y2, o2["r"])
+    # fresh twin (python numbers, positional, rank-1 tensor, same process state): same values => same
+    # behaviour, bit for bit wherever one exponent is admissible (graph-mode routes may evaluate the
+    # logarithm differently inside the band); the model says when a stale cache makes them differ
+    if yt is not None and not o0["stale"]:
+      n_diff = 0
+      for x, y, t, o in zip(xs, ys, yt, o1["r"]):
+        run.compared += 1
+        if len(o["adm"]) == 1 and not (y == t or (np.isnan(y) and np.isnan(t))):
+          n_diff += 1
+          if n_diff <= 3:
+            run.disagree("twin", {"config": cfg_name(c), "x": float(x)}, float(y), float(t))
+      run.count("twin_equal" if n_diff == 0 else "twin_differs")
 
 
-def key_of(c, cause):
-  return {"variant": "relu_po2" if c["relu"] else "po2", "mode": "floor" if c["floor"] else "rnd",
-          "quad": bool(c["quad"]), "leaky": bool(c["slope"] != 0), "cause": cause}
+def key_of(c, cause, o0=None):
+  v = live_values(c)
+  k = {"variant": "relu_po2" if v["relu"] else "po2", "mode": "floor" if v["floor"] else "rnd",
+       "quad": bool(v["quad"]), "leaky": bool(v["slope"] != 0), "cause": cause}
+  if "stream" in c:
+    k["stream"] = c["stream"]
+    k["stale"] = bool(o0 and o0.get("stale"))
+    k["bits_npint"] = c.get("forms", {}).get("bits") in NPINT_FORMS
+  return k
 
 
-def judge_config(run, c, qmin, qmax, mn, mx, eps32, tags, xs, ys, r1, u, y2, r2):
+def judge_config(run, c, o0, qmin, qmax, mm_ok, mn, mx, eps32, free, tags, xs, ys, r1, u, y2, r2):
+  """clause oracle on the REAL outputs of one case.  The reference is the configuration a fresh
+  object with the case's CURRENT values has (`live_values`; the driver's clause predicates are
+  computed for `Obj.fresh`); `mirrored` = the model of the object as the code keeps it reproduces the
+  implementation's output bit for bit.  `free`: training-phase stochastic rounding ("rnd" mode): only
+  the clauses that hold for every choice of the exponent, plus "one of the two bracketing powers"."""
   name = cfg_name(c)
-  mv = c["max_value"]
+  lv = live_values(c)
+  mv = lv["max_value"]
+  K = lambda cause: key_of(c, cause, o0)
   min_code = Fraction(2) ** mn
+  if qmin is None:
+    # min() raised
+    k = K("exact"); k["side"] = "min_raises"
+    run.violate("minmax", k, {"config": name, "min()": "raises ValueError", "model": o0["qmin"]}, mm_ok)
   exact_pts = []  # (x, y) of points without a float32 effect: used for monotonicity
   good_codes = set()  # outputs of such points (fed back for idempotence)
   for i, (tag, x, y, o) in enumerate(zip(tags, xs, ys, r1)):
@@ -292,12 +757,15 @@ def judge_config(run, c, qmin, qmax, mn, mx, eps32, tags, xs, ys, r1, u, y2, r2)
       run.count("regime_overflow")
       if not mirrored:
         run.disagree("quant", {"config": name, "x": float(x)}, str(y), adm)
-      run.violate("is_po2", key_of(c, "overflow"), {"config": name, "x": float(x), "impl": str(y), "model": adm},
+      cause = "slope_overflow" if (lv["relu"] and lv["slope"] > 1 and x < 0 and not lv["quad"]) else "overflow"
+      run.violate("is_po2", K(cause), {"config": name, "x": float(x), "impl": str(y), "model": adm},
                   mirrored)
       continue
     yj = core.rj(y)
     hit = [a for a in adm if a[3] == yj]
     regime = hit[0][4] if hit else (adm[0][4] if adm else "none")
+    if regime in ("exact", "daz") and o["fregime"] not in ("exact", "daz"):
+      regime = o["fregime"]   # the reference configuration has a float32 effect here
     run.count("tag_" + tag)
     run.count("regime_" + regime)
     run.count("admissible_%d" % len(adm))
@@ -317,45 +785,57 @@ def judge_config(run, c, qmin, qmax, mn, mx, eps32, tags, xs, ys, r1, u, y2, r2)
     # ---- clauses on the implementation's output
     if regime not in ("exact", "daz"):
       # a float32 effect the model knows about: the output is judged as a power of two only
-      if o["ye"] is None or (not c["quad"] and not o["in_range"]) or not o["sign_ok"]:
-        run.violate("is_po2", key_of(c, regime), detail, mirrored)
+      if o["ye"] is None or (not lv["quad"] and not o["in_range"]) or not o["sign_ok"]:
+        run.violate("is_po2", K(regime), detail, mirrored)
       continue
     cause = "exact"
     if o["ye"] is None:
-      run.violate("is_po2", key_of(c, cause), detail, mirrored)
+      run.violate("is_po2", K(cause), detail, mirrored)
       continue
     if not o["in_range"]:
-      run.violate("exp_range", key_of(c, cause), detail, mirrored)
+      run.violate("exp_range", K(cause), detail, mirrored)
     if not o["sign_ok"]:
-      run.violate("sign", key_of(c, cause), detail, mirrored)
+      run.violate("sign", K(cause), detail, mirrored)
     x0 = Fraction(0) if abs(fx) < Fraction(1, 2 ** 126) else fx
     if x0 == 0 and fy != min_code:
-      run.violate("zero_to_min", key_of(c, cause), detail, mirrored)
-    if c["relu"] and c["slope"] == 0 and x0 < 0 and fy != min_code:
-      run.violate("relu_negative_to_min", key_of(c, cause), detail, mirrored)
+      run.violate("zero_to_min", K(cause), detail, mirrored)
+    if lv["relu"] and lv["slope"] == 0 and x0 < 0 and fy != min_code:
+      run.violate("relu_negative_to_min", K(cause), detail, mirrored)
     if not o["adm_exact"]:
-      run.violate("nearest_exponent", key_of(c, cause), detail, mirrored)
+      run.violate("stochastic_neighbour" if free else "nearest_exponent", K(cause), detail, mirrored)
+    if free:
+      continue
     if mv is not None and math.log2(mv) >= mn and not o["le_max"]:
-      run.violate("le_max", key_of(c, cause), detail, mirrored)
+      run.violate("le_max", K(cause), detail, mirrored)
     if fy > qmax:
-      k = key_of(c, cause); k["side"] = "max"
-      run.violate("minmax", k, dict(detail, max=str(qmax)), mirrored)
-    if fy < qmin:
-      k = key_of(c, cause); k["side"] = "min"
-      run.violate("minmax", k, dict(detail, min=str(qmin)), mirrored)
-    exact_pts.append((fx, fy, float(x), float(y), mirrored))
-    if o["in_range"] or c["quad"]:
+      k = K(cause); k["side"] = "max"
+      run.violate("minmax", k, dict(detail, max=str(qmax)), mirrored and mm_ok)
+    if qmin is not None and fy < qmin:
+      k = K(cause); k["side"] = "min"
+      run.violate("minmax", k, dict(detail, min=str(qmin)), mirrored and mm_ok)
+    exact_pts.append((fx, fy, float(x), float(y), mirrored, tuple(sorted(a[0] for a in adm))))
+    if o["in_range"] or lv["quad"]:
       good_codes.add(fy)
+  if free:
+    run.count("cases_training_stochastic")
+    return
   # ---- monotone on each sign (exact-regime points)
+  graph_mode = c.get("inp", {}).get("via") in ("tf_function", "model")
   for sign in (1, -1):
     side = sorted([p for p in exact_pts if (p[0] > 0 if sign > 0 else p[0] < 0)], key=lambda p: p[0])
     for a, b in zip(side, side[1:]):
       run.compared += 1
       if a[1] > b[1]:
-        run.violate("monotone", key_of(c, "exact"),
+        if graph_mode and len(a[5]) == 2 and a[5] == b[5]:
+          # C03_mono_band: under float log error an inversion is confined to the band of ONE breakpoint
+          # (both points admit the same two exponents).  Eager kernels are monotone there (strict check);
+          # a traced graph evaluates the logarithm with vector and scalar code paths side by side.
+          run.count("monotone_inversion_inside_band_graph_mode")
+          continue
+        run.violate("monotone", K("exact"),
                     {"config": name, "x1": a[2], "y1": a[3], "x2": b[2], "y2": b[3]}, a[4] and b[4])
   # ---- idempotent (no leaky slope): q(q(x)) == q(x) on every distinct output
-  if c["slope"] == 0:
+  if lv["slope"] == 0:
     for y, yy, o in zip(u, y2, r2):
       fy = core.frac(y)
       if fy not in good_codes:
@@ -373,7 +853,5 @@ def judge_config(run, c, qmin, qmax, mn, mx, eps32, tags, xs, ys, r1, u, y2, r2)
         else:
           cause = sorted({a[4] for a in o["adm"]})[0] if o["adm"] else "exact"
         run.count("idem_fail_" + cause)
-        run.violate("idempotent", key_of(c, cause),
+        run.violate("idempotent", K(cause),
                     {"config": name, "y": float(y), "q(y)": float(yy), "model": o["adm"]}, bool(o["match"]))
-
-
